@@ -536,8 +536,15 @@ def corrupt(r):
 
 def make_demo(recs):
     """Records for the binding demonstration, taken from behaviours of the specification itself."""
-    return [{"edges": r["edges"], "kind": r["kind"], "flow": r["flow"], "hists": r["hists"],
-             "iter": [c["e"] for c in r["iter"]], "hctx": r["hctx"], "vctx": r["vctx"]} for r in recs[-80:]]
+    demo = []
+    for r in reversed(recs[-5000:]):
+        d = {"edges": r["edges"], "kind": r["kind"], "flow": r["flow"], "hists": r["hists"],
+             "iter": [c["e"] for c in r["iter"]], "hctx": r["hctx"], "vctx": r["vctx"]}
+        if corrupt(d) is not None:          # a record in which a value can be moved to the next cell
+            demo.append(d)
+            if len(demo) == 40:
+                break
+    return demo
 
 
 def run(ctx):
@@ -559,12 +566,12 @@ def run(ctx):
     for n, rec in enumerate(recs):
         replay(ctx, rec, n, worst)
         key = core.canon([rec["edges"], rec["flow"]])
-        if key not in seen and (ctx.thorough or n % 3 == 0):
+        if key not in seen and n % (2 if ctx.thorough else 3) == 0:
             seen.add(key)
             second_oracle(ctx, rec, worst)
     ctx.sample({"spec_behaviour": recs[len(recs) // 2]})
     ctx.sample({"spec_behaviour": recs[-1]})
-    trace = record_runs(ctx, rnd, 6000 if ctx.thorough else 1200, worst)
+    trace = record_runs(ctx, rnd, 4000 if ctx.thorough else 1200, worst)
     clean = [{k: v for k, v in r.items() if k != "real"} for r in trace]
     demo_pool = concurrent.futures.ThreadPoolExecutor(max_workers=1)
     f_demo = demo_pool.submit(ctx.binding_demo, "Trace_SplitIntoBins", "Trace_SplitIntoBins.cfg", make_demo(recs), corrupt, 80)
